@@ -32,7 +32,9 @@
    Part 6  examples (non-vacuity), a sensitivity check of the judge, and two runs with Unicode white
            space inside a Via comma list: [via_lead_ok_needed] (second entry BEGINS with U+0085: the
            judge's former reader rejected this correct relay, the present one accepts it, and the
-           hypothesis [via_lead_ok] the theorems used to carry is gone) and [via_tail_kept] (second
+           hypothesis [via_lead_ok] the theorems used to carry is gone; since parse_via_param is
+           modelled with strings.Fields proper the decoder drops those two bytes and the input is
+           outside [via_domain], the judge's verdict 0 is shown by computation) and [via_tail_kept] (second
            entry ENDS with U+00A0: why the right end of a Via entry is not read through TrimSpace)
    Not covered: responses whose Via values are outside the C14 grammar (the judge's own j_via failing
    on an entry is not related to parse_via failing), responses arriving over TCP (EvTcpData).
@@ -294,18 +296,18 @@ Lemma response_line_ok l v c r :
   parse_start_line l = Ok (SResp v c r) -> start_ok (start_line_print (SResp v c r)).
 Proof.
   unfold parse_start_line. destruct (has_prefix (s2b "SIP/") l).
-  - unfold parse_status_line. destruct (fields l) as [|v0 [|c0 [|r1 rs]]] eqn:F; try discriminate.
+  - unfold parse_status_line. destruct (fields_go l) as [|v0 [|c0 [|r1 rs]]] eqn:F; try discriminate.
     destruct (atoi c0) as [code|]; [|discriminate]. intros H. injection H as <- <- <-.
-    destruct (fields_spec l v0) as [V1 V2]; [rewrite F; left; reflexivity|].
+    destruct (fields_go_spec l v0) as [V1 V2]; [rewrite F; left; reflexivity|].
     cbn [start_line_print]. split.
     + apply lf_app_i; [apply nospace_lf; exact V2|]. apply lf_cons_i; [intros HH; vm_compute in HH; discriminate HH|].
       apply lf_app_i; [apply itoa_no_lf|]. apply lf_cons_i; [intros HH; vm_compute in HH; discriminate HH|].
       intros I. change (In jLF (join_byte " "%char (r1 :: rs))) in I. apply cb_in_join in I. destruct I as [E|(x & Ix & Ic)]; [vm_compute in E; discriminate E|].
-      destruct (fields_spec l x) as [_ X2]; [rewrite F; right; right; exact Ix|].
+      destruct (fields_go_spec l x) as [_ X2]; [rewrite F; right; right; exact Ix|].
       exact (nospace_lf _ X2 Ic).
     + destruct v0 as [|ch t]; [exfalso; apply V1; reflexivity|]. cbn [app]. eexists. eexists.
       split; [reflexivity|]. apply V2. left. reflexivity.
-  - unfold parse_request_line. destruct (fields l) as [|m0 [|u [|v1 [|x y]]]]; try discriminate.
+  - unfold parse_request_line. destruct (fields_go l) as [|m0 [|u [|v1 [|x y]]]]; try discriminate.
     destruct (parse_addr_spec u); try discriminate.
 Qed.
 
@@ -1062,36 +1064,29 @@ Definition ex_nel : bytes :=
   s2b "SIP/2.0/UDP 127.0.0.9:40000;branch=z9hG4bKabc" ++ crlf ++
   flat_map ln ["From: <sip:a@example.com>;tag=1"; "To: <sip:bob@example.com>;tag=2"; "Call-ID: c1";
                "CSeq: 1 INVITE"; "Content-Length: 0"] ++ crlf.
+(* SINCE THE MODEL USES strings.Fields PROPER (Bytes.fields_go) in parse_via_param: the sent-protocol /
+   sent-by text of an entry is split at Unicode white space too, so the leading U+0085 of the second
+   entry is DROPPED by the decoder (the decoded protocol name is "SIP"), decode-then-encode is not the
+   identity on this value, and the response is no longer in [via_domain] ([wf_via] excludes Unicode-space
+   sequences inside the protocol name: SpecC14.via_no_usp).  The relayed entry is printed without the
+   two bytes; the judge, which trims the left end of every entry, still answers 0 (by computation; the
+   bridge theorem does not apply to this input any more).  Former first two conjuncts, true of the
+   ASCII-only split:  via_domain (parsed ex_nel)  and
+   ~ lclean (via_print (tl (flat_view (via_hdrs (parsed ex_nel))))). *)
 Example via_lead_ok_needed :
-  via_domain (parsed ex_nel) /\
-  ~ lclean (via_print (tl (flat_view (via_hdrs (parsed ex_nel))))) /\      (* what via_lead_ok excluded *)
+  via_domain_b (parsed ex_nel) = false /\
+  via_print (tl (flat_view (via_hdrs (parsed ex_nel)))) = s2b "SIP/2.0/UDP 127.0.0.9:40000;branch=z9hG4bKabc" /\
   map fst (seen ex_nel) = [s2b "udp:127.0.0.9:40000"] /\
   map (fun o => option_map (fun om => j_flat_via (jm_headers om)) (j_read (snd o))) (seen ex_nel) =
     [Some [s2b "SIP/2.0/UDP 127.0.0.9:40000;branch=z9hG4bKabc"]] /\
   judge_C02_event ex_pc (js_init ex_cfg) (EvUdp 0 ex_src 5070 ex_nel) (seen ex_nel) [] = O.
 Proof.
-  split; [apply via_domain_b_sound; vc|]. split; [intros X; vm_compute in X; discriminate X|].
+  split; [vm_compute; reflexivity|]. split; [vm_compute; reflexivity|].
   split; [vm_compute; reflexivity|]. split; vm_compute; reflexivity.
 Qed.
 Example via_lead_ok_needed_by_theorem :
   judge_C02_event ex_pc (js_init ex_cfg) (EvUdp 0 ex_src 5070 ex_nel) (seen ex_nel) [] = O.
-Proof.
-  apply (C02_judge_bridge_step_udp ex_pc (js_init ex_cfg) all_fixed 0 ex_br ex_st 0%nat ex_lc ex_src 5070 ex_nel
-           (jread ex_nel) (parsed ex_nel) [] ex_p (st_of ex_nel) (outs_of ex_nel) []
-           (via_n ex_nel 0) (via_n ex_nel 1) [] (s2b "127.0.0.9")).
-  - reflexivity.
-  - vc.
-  - vc.
-  - vc.
-  - apply via_domain_b_sound. vc.
-  - vc.
-  - vc.
-  - vc.
-  - vc.
-  - vc.
-  - vc.
-  - vc.
-Qed.
+Proof. (* the input is outside [via_domain] now (see above): by computation *) vm_compute. reflexivity. Qed.
 
 (* WHY THE RIGHT END OF A VIA ENTRY IS NOT READ THROUGH strings.TrimSpace (SpecProxy.j_flat_via: left end
    TrimSpace, right end ASCII blanks only).  The second entry is followed by a comma and its last parameter,
